@@ -238,17 +238,39 @@ def run(chk, facts):
         # reach (>= 2^31: the line is never shown) or label - 1, and a label is never smaller than 1
         quoted = 0
         main_line = False
+        # quote sites: `..lines()..nth(<index>)` followed by the rendering closure, written in format_location itself, or a call of a private
+        # helper of the module that does the `lines().nth(<its parameter>)` and gets the rendering as a closure
+        from .common import local_helpers
+        sites = []      # (index expression, [label expressions])
+
+        def labels_in(nodes):
+            out_ = []
+            for x in nodes:
+                for m in walk(x):
+                    if m.get("k") == "macro" and m.get("name", "").endswith("format_args") and "args" in m:
+                        for a_ in m["args"][1:]:
+                            if "pos." in src(a_, -30):
+                                out_.append(a_)
+            return out_
         for n in walk(fl["body"]):
             if n.get("k") == "mcall" and n["m"] in ("map_or", "map", "map_or_else", "and_then") and strip(n["recv"]).get("k") == "mcall" and strip(n["recv"])["m"] == "nth":
-                if ".lines()" not in src(strip(n["recv"])["recv"], -30).replace(" ", "") and "lines" not in src(strip(n["recv"])["recv"], -30):
+                if "lines" not in src(strip(n["recv"])["recv"], -30):
                     continue
-                idx_e = strip(n["recv"])["args"][0]
-                label_es = []
-                for m in walk(n["args"][-1]):
-                    if m.get("k") == "macro" and m.get("name", "").endswith("format_args") and "args" in m:
-                        for a in m["args"][1:]:
-                            if "pos." in src(a, -30):
-                                label_es.append(a)
+                sites.append((strip(n["recv"])["args"][0], labels_in([n["args"][-1]])))
+        helper_lines = False
+        for h in local_helpers(syn, fl):
+            hp = [i_["pat"].get("name") for i_ in h["sig"]["inputs"]]
+            nths = [x for x in walk(h["body"]) if x.get("k") == "mcall" and x["m"] == "nth" and "lines" in src(x["recv"], -30) and x["args"] and src(strip(x["args"][0])) in hp]
+            if len(nths) != 1:
+                continue
+            helper_lines = True
+            ipos = hp.index(src(strip(nths[0]["args"][0])))
+            for n in walk(fl["body"]):
+                if n.get("k") == "call" and n["f"].get("k") == "path" and n["f"]["p"] == h["name"] and len(n["args"]) == len(hp):
+                    sites.append((n["args"][ipos], labels_in([a_ for j_, a_ in enumerate(n["args"]) if j_ != ipos])))
+        uses_lines = uses_lines or helper_lines
+        for idx_e, label_es in sites:
+            if True:
                 quoted += 1
                 bad = []
                 shown = []
